@@ -40,3 +40,4 @@ CFG = {'level': 'exploration',
                     ('case_family_pairs', 500000)]},
  'assumptions': ['the clause-by-clause transcription of the doc comments in ref/refpath is correct (which paths and versions are valid inputs)',
                  'strings.EqualFold is the meaning of "equal ignoring case"']}
+CFG['level_text'] += ' Each batch also starts 12 (thorough 60) fresh child processes whose very first calls into package module come from sixteen goroutines released together (escape round trips and path verdicts).'
